@@ -225,7 +225,8 @@ class ModelMixin:
         if o.k == "module" or o.k == "builtin":
             self.effect(st, "getattr", node)
             return [(st, vbool(fresh("hasattr", Bool)))]
-        if o.k in ("ref", "val") and o.cls and (self.field_type(o.cls, name) or (self.repo.has_class(o.cls) and self.repo.attr(o.cls, name))):
+        if o.k in ("ref", "val") and o.cls and (self.field_type(o.cls, name) or (self.repo.has_class(o.cls) and self.repo.attr(o.cls, name))
+                                                or (o.cls, name) in self.ext_methods or (o.cls, name) in self.ext_attrs):
             return [(st, vbool(True))]
         return [(st, vbool(fresh("hasattr." + name, Bool)))]
 
